@@ -35,6 +35,24 @@ StepsOK(t) ==
      /\ \A i \in 1..(n-1) : st[i+1].red = ReduceStep(st[i].red, st[i].next, t.latt)
      /\ t.reduced = ReduceStep(st[n].red, st[n].next, t.latt)
 
+(* ---- other genuine SHELX descriptions of the same group --------------------------------------- *)
+(* a lattice type may be claimed when its centring vectors are translations of the group, a positive *)
+(* sign when the inversion sits at the origin                                                        *)
+LattValid(S, latt) ==
+  /\ AbsInt(latt) \in 1..7
+  /\ \A k \in DOMAIN CenteringVecs(AbsInt(latt)) : ShiftCode(IdentityCode, CenteringVecs(AbsInt(latt))[k]) \in S
+  /\ (latt > 0 => InversionAtOrigin(S))
+(* first alternative description that is mishandled, as a clause name ("" if none) *)
+AltClause(t, S, a) ==
+  IF LattValid(S, a.latt) /\ (a.lib_exc # "" \/ ~Describes(a.lib, a.latt, S)) THEN "REJECT AltReduce" ELSE
+  IF LattValid(S, a.latt) /\ ~LookupOK(a.lk_lib, t.number, S) THEN "REJECT AltLookup" ELSE
+  IF Describes(a.ref, a.latt, S) /\ ~LookupOK(a.lk_ref, t.number, S) THEN "REJECT AltLookupRef" ELSE ""
+AltVerdict(t, S) ==
+  LET bad == {k \in DOMAIN t.alts : AltClause(t, S, t.alts[k]) # ""} IN
+  IF bad = {} THEN "" ELSE AltClause(t, S, t.alts[CHOOSE k \in bad : \A j \in bad : k <= j]) \o ":latt=" \o ToString(t.alts[CHOOSE k \in bad : \A j \in bad : k <= j].latt)
+(* the reference reduction must yield a description for every valid lattice type, else the harness is at fault *)
+RefCovers(t, S) == \A k \in DOMAIN t.alts : LattValid(S, t.alts[k].latt) => Describes(t.alts[k].ref, t.alts[k].latt, S)
+
 KnownLatt(t, S) == IF Centro(S) /\ ~InversionAtOrigin(S) /\ t.latt > 0 THEN " KF=C02-latt-origin" ELSE ""
 
 Verdict(t) ==
@@ -53,6 +71,9 @@ Verdict(t) ==
   IF ~LookupOK(t.lookup_reduced, t.number, S) THEN "REJECT LookupReduced" \o KnownLatt(t, S) ELSE
   IF ~LookupOK(t.lookup_reduced_again, t.number, S) THEN "REJECT LookupReducedRepeated" ELSE
   IF \E k \in DOMAIN t.perms : ~PermOK(t, S, k) THEN "REJECT PermutedReduce" \o KnownLatt(t, S) ELSE
+  IF ~RefCovers(t, S) THEN "OOD harness-ref-reduce" ELSE
+  IF AltVerdict(t, S) # "" THEN AltVerdict(t, S) ELSE
+  IF \E k \in DOMAIN t.lookup_noisy : ~LookupOK(t.lookup_noisy[k], t.number, S) THEN "REJECT LookupNoisyMatrices" ELSE
   \* a group constructed after the caller edited the first object's operations in place: matrices read directly
   IF t.fresh.exc # "" \/ t.fresh.off THEN "REJECT FreshConstruction" ELSE
   IF {Enc([r |-> <<<<m[1][1], m[1][2], m[1][3]>>, <<m[1][4], m[1][5], m[1][6]>>, <<m[1][7], m[1][8], m[1][9]>>>>, t |-> m[2]]) :
